@@ -65,6 +65,8 @@ theorem erase_val {o o' : FnM.Obj} (h : eraseObj o' = eraseObj o) : o'.val = o.v
   have := congrArg FnM.Obj.val h; exact this
 theorem erase_proto {o o' : FnM.Obj} (h : eraseObj o' = eraseObj o) : o'.proto = o.proto := by
   have := congrArg FnM.Obj.proto h; exact this
+theorem erase_accs {o o' : FnM.Obj} (h : eraseObj o' = eraseObj o) : o'.accs = o.accs := by
+  have := congrArg FnM.Obj.accs h; exact this
 theorem erase_cls {o o' : FnM.Obj} (h : eraseObj o' = eraseObj o) : o'.cls = o.cls := by
   have := congrArg FnM.Obj.cls h; exact this
 
@@ -194,11 +196,12 @@ theorem absHas_erase {o o' : FnM.Obj} (h : eraseObj o' = eraseObj o) (x : String
 theorem Shape.hasProp {σ σ' : FnM.St} (h : Shape σ σ') (x : String) :
     ∀ (n a : Nat), Fn.hasProp (absSt σ') n a x = Fn.hasProp (absSt σ) n a x := by
   intro n
+  simp only [hasProp_abs]
   induction n with
   | zero => intro a; rfl
   | succ n ih =>
     intro a
-    simp only [Fn.hasProp, absSt_obj]
+    simp only [Fn.hasPropD, absSt_obj]
     cases ho : σ.obj? a with
     | none => rw [h.obj_none a ho]; rfl
     | some o =>
@@ -335,8 +338,9 @@ theorem ROInv.shape {σ σ' : FnM.St} {xs : List String} (hI : ROInv σ xs) (h :
   refine ⟨?_, ?_, ?_, ?_, ?_, ?_, ?_⟩
   · intro x hx a o' ho'
     obtain ⟨o, ho, he⟩ := h.symm.obj_some a o' ho'
-    rw [← erase_val he]
-    exact hI.vis x hx a o ho
+    have h1 := hI.vis x hx a o ho
+    rw [erase_val he, erase_accs he] at h1
+    exact h1
   · -- WF0
     have hs := h.stash 0
     have h0 : σ.stash? 0 = some (.obj none FnM.gObj) := hI.wf0
@@ -668,7 +672,7 @@ theorem lw_assign (n : Nat) (x : String) (e1 : Fn.FE) (sc : FnM.Scope) (rest : L
           have hstr' : ∀ s, ob'.val ≠ .string s := by rw [erase_val he]; exact hstr
           obtain ⟨σ2, hrun, hsh2⟩ := objPut_update_run σ1 o x v ob' p' ho' hl' hna' hstr' hxn
           have hrt : FnM.rtPutValue (.prop (some o) x) v σ1 = .ok () σ2 := by
-            simp only [FnM.rtPutValue, FnM.refPutValue, bind_run, hrun, pure_run]
+            simp only [FnM.rtPutValue, FnM.refPutValue, bind_run, objPutA_run σ1 x (hI1.ro.vis x hx), hrun, pure_run]
             rfl
           have hspec := putValue_obj_spec σ1 j outer o x v hst1 hI1.ro.wf0 (hI1.ro.vis x hx) hI1.ww hI1.pd
             (by intro ob1 ho1; rw [ho'] at ho1; cases ho1; exact hna')
@@ -906,6 +910,12 @@ theorem valForm_isVal (n : Nat) (e : Fn.FE) (hro : valForm e = true) (hnv : ∀ 
                 | fuel => simp
                 | throw t s => simp
                 | ok lv s2 => simp only [getSt_run, pure_run, FnM.R.ok.injEq]; intro h; exact ⟨_, h.1.symm⟩
+            | pprop b nm pv =>
+              simp only [bind_run]
+              cases FnM.resolve (.ref (.pprop b nm pv)) s1 with
+              | fuel => simp
+              | throw t s => simp
+              | ok lv s2 => simp only [getSt_run, pure_run, FnM.R.ok.injEq]; intro h; exact ⟨_, h.1.symm⟩
       | log a =>
         simp only [FnM.evalE, bind_run] at hr
         revert hr
